@@ -49,6 +49,24 @@ REQUIRED_THEOREMS = [
     "only_constraint_acts_outside_interval",
     "relation_ratio_inside",
     "relation_no_effect_outside",
+    # model weights in both dimensions
+    "weight_outside_is_nearest_model",
+    "weight_block_is_product_of_slices",
+    # any number of constraints / relations at one index, tie to C02's reduced_problem_equiv in both directions
+    "reduced_labels_iff",
+    "zeroed_labels_are_union_of_applying_constraints",
+    "free_label_keeps_estimate",
+    "related_targets_get_param_times_source",
+    "constrained_model_is_reduced_problem",
+    # linked groups with a link tolerance: decided at the aligned coordinate, inherited by the members
+    "member_inside_aligned_outside_iff",
+    "member_and_aligned_disagree_only_across_a_bound",
+    "member_inside_aligned_outside_within_tol",
+    "linked_items_act_on_aligned_coordinate",
+    "aligned_coordinate_is_first_members_own",
+    "linked_constraint_affects_members_iff_aligned_inside",
+    "linked_area_acts_on_aligned_axis",
+    "linked_reported_clps_follow_aligned_decision",
 ]
 TRUSTED = [
     "hand-written model lean/GlotaranModel/C08.lean (on top of C02.lean / C03.lean: applies, axisSlice, areaSlice, getArea, "
@@ -59,6 +77,8 @@ TRUSTED = [
     "scipy.optimize.least_squares with max_nfev=1 evaluates the model at the initial parameters",
     "numpy slicing / xarray positional indexing of `weight[idx] *= value` (observed through the weight arrays, not modelled below "
     "the level of 'entries with start <= i < stop are multiplied')",
+    "the alignment of linked groups (which member point is merged into which aligned point) is C09's subject: the model uses C02's "
+    "alignAxes (proved equal to the C09 model), the oracle its own Python reading of align_index; xarray's outer join is trusted",
 ]
 ASSUMPTIONS = [
     "axes are strictly increasing lists of finite numbers (the property's quantifier); interval bounds are finite numbers or +-inf",
@@ -74,9 +94,17 @@ RULE = (
     "item kind (zero/only/relation) x interval forms (none, tuple, list) x every candidate index for applies / does_interval_item_apply, "
     "seeded add_model_weight cases (1-3 weight items, label selection incl. prefix labels, global/model intervals, dataset weight "
     "present or not); one-step widenings of every interval for monotonicity; end-to-end: one-evaluation optimize() on random "
-    "schemes (linked and unlinked groups, VP/NNLS, index-(in)dependent matrices) carrying constraints, relations, equal-area "
-    "penalties and model weights with such intervals. Each case is run on the real code, on the Lean model (exact equality of slices, "
-    "truth values, collected indices, weight arrays, number_of_clps, warnings; clps/penalties at 1e-9) and through an independent "
+    "schemes (linked and unlinked groups, VP/NNLS, index-(in)dependent matrices, link tolerance 0 / 1/4 / 1/2 / 1 with the three link "
+    "methods and global axes of later datasets moved off the grid by dyadic offsets of at most 1/2 so that member points are merged "
+    "into aligned points of earlier datasets) carrying constraints, relations, equal-area penalties and model weights with such "
+    "intervals; in schemes with merged member points 60 % of the constraint / relation intervals are aimed at the gap between a member's "
+    "own coordinate and its aligned coordinate (a bound strictly between them, on one of them, or a degenerate interval on one of "
+    "them), so that the two coordinates disagree about membership; constraints, relations and penalties of a linked group are read on "
+    "the ALIGNED coordinate of the shared clp, model weights on the dataset's own axes. "
+    "Each case is run on the real code, on the Lean model (exact equality of slices, "
+    "truth values, collected indices, weight arrays, number_of_clps, warnings; clps/penalties at 1e-9; for linked groups the model's "
+    "per-aligned-point decisions `linkDecisions`: every label the model removes at the aligned coordinate is exactly 0 / in exact ratio at "
+    "every member's own index) and through an independent "
     "oracle that reads the property statement on the real outputs. non-trivial = the interval separates the axis (some point inside "
     "and some outside) or an end-to-end scheme with at least one interval item; distinct = distinct case description"
 )
@@ -343,9 +371,18 @@ def judge_unit(ck, b, ans):
 # end to end
 # =================================================================================================
 def run_real_e2e(spec):
+    from glotaran.optimization import matrix_provider as mp
     from glotaran.optimization.optimize import optimize
     scheme, model, parameters, data = gen_scheme.build(spec)
     out = {"error": None, "warnings": []}
+    providers = []
+    orig_init = mp.MatrixProviderLinked.__init__
+
+    def spy_init(self, *a, **k):
+        orig_init(self, *a, **k)
+        providers.append(self)
+
+    mp.MatrixProviderLinked.__init__ = spy_init
     try:
         with warnings.catch_warnings(record=True) as rec:
             warnings.simplefilter("always")
@@ -356,8 +393,21 @@ def run_real_e2e(spec):
     except Exception as e:  # noqa
         out["error"] = type(e).__name__ + ":" + str(e)[:120]
         return out
+    finally:
+        mp.MatrixProviderLinked.__init__ = orig_init
     out["result"] = res
     out["warnings"] = [str(r.message) for r in rec]
+    # internal tables of the linked providers (diagnostic level only): aligned axis, full and reduced labels per aligned point
+    out["linked_tables"] = []
+    for pr in providers:
+        try:
+            axis = [float(v) for v in pr._data_provider.aligned_global_axis]
+            out["linked_tables"].append({
+                "axis": axis,
+                "full": [list(pr.aligned_full_clp_labels[i]) for i in range(len(axis))],
+                "reduced": [list(pr.get_aligned_matrix_container(i).clp_labels) for i in range(len(axis))]})
+        except Exception as e:  # noqa  (a refactoring of the internals must not break the check)
+            out["linked_tables"].append({"unreadable": type(e).__name__})
     return out
 
 
@@ -383,7 +433,7 @@ def e2e_lines(spec):
                                            pair_proto(w.get("model_interval")), core.rat(w["value"])]))
     for ds in spec["datasets"]:
         lines.append(f"maxis {core.enc(ds['label'])} {core.rats(ds['model_axis'])}")
-    return lines + ["weights", "results", "parts", "nclps", "penwarn"], n_desc
+    return lines + ["linkdec", "weights", "results", "parts", "nclps", "penwarn"], n_desc
 
 
 def check_e2e(ck, case, batch, model=True):
@@ -422,7 +472,7 @@ def judge_e2e(ck, b, ans):
     if real["error"]:
         return
     res = real["result"]
-    a_w, a_res, a_parts, a_n, a_pw = ans[-5:]
+    a_ld, a_w, a_res, a_parts, a_n, a_pw = ans[-6:]
     explained = b.get("oracle_failed", False)
 
     def dis(what, extra=None):
@@ -436,6 +486,7 @@ def judge_e2e(ck, b, ans):
         ck.count("e2e-model-unsolvable")
         ck.diagnostic("model unsolvable", {"answer": a_res})
         return
+    judge_linkdec(ck, spec, real, a_ld, dis)
     # weights + weight warnings
     t = core.parse_tree(a_w[len("weights "):])[0]
     model_w = {core.dec(item[0]): (None if item[1] == "none" else [[float(Fraction(v)) for v in row] for row in item[1]]) for item in t[0]}
@@ -472,6 +523,87 @@ def judge_e2e(ck, b, ans):
         mp = sorted({core.dec(x) for x in core.parse_tree(a_pw[len("penwarn "):])[0]})
         if mp != real["canon_warnings"][1]:
             dis(f"equal-area-penalty warnings {real['canon_warnings'][1]} vs model {mp}")
+
+
+def judge_linkdec(ck, spec, real, a_ld, dis):
+    """the model's decisions per aligned point of every linked group (`linkDecisions`) against the real result:
+    API level — at every member's OWN index the clp of a label the model removes by a constraint at the ALIGNED
+    coordinate is exactly 0, the clp of a relation target the model removes is exactly parameter x source;
+    the number of labels the model leaves adds up to number_of_clps (compared separately);
+    internal level (diagnostic only) — aligned axis, full and reduced labels of MatrixProviderLinked."""
+    if not a_ld.startswith("linkdec "):
+        dis(f"model answered {a_ld!r} to linkdec")
+        return
+    res = real["result"]
+    P = spec["parameters"]
+    groups = core.parse_tree(a_ld[len("linkdec "):])[0]
+    order = orc.group_order(spec)
+    if len(groups) != len(order):
+        dis(f"linkdec: {len(groups)} groups in the model, {len(order)} in the scheme")
+        return
+    tables = list(real.get("linked_tables", []))
+    cons, rels = spec.get("constraints", []), spec.get("relations", [])
+    for g, rows in zip(order, groups):
+        if rows == "none":
+            continue
+        if rows == "err":
+            dis(f"linkdec: the model refuses the alignment of group {g!r}, the real code optimised it")
+            return
+        members = [ds for ds in spec["datasets"] if ds["group"] == g]
+        table = tables.pop(0) if tables else None
+        m_axis, m_full, m_red = [], [], []
+        for row in rows:
+            v = Fraction(row[0])
+            mem = [(int(p[0]), int(p[1])) for p in row[1]]
+            own = [Fraction(x) for x in row[2]]
+            full, red = [core.dec(x) for x in row[3]], [core.dec(x) for x in row[4]]
+            con_v, rel_v = [x == "T" for x in row[5]], [x == "T" for x in row[6]]
+            con_own, rel_own = [[x == "T" for x in r] for r in row[7]], [[x == "T" for x in r] for r in row[8]]
+            m_axis.append(float(v)); m_full.append(full); m_red.append(red)
+            ck.count("linkdec:aligned-points")
+            for k, ((d, j), x) in enumerate(zip(mem, own)):
+                ds = members[d]
+                if Fraction(ds["global_axis"][j]) != x:
+                    dis(f"linkdec: member ({d}, {j}) of aligned point {float(v)} has own coordinate {float(x)} in the model, "
+                        f"{ds['global_axis'][j]} in the scheme")
+                    return
+                ck.count("linkdec:members")
+                if x != v:
+                    ck.count("linkdec:members-merged")
+                    ck.extra["link_max_member_distance"] = max(ck.extra.get("link_max_member_distance", 0.0), float(abs(x - v)))
+                    if abs(x - v) > Fraction(spec.get("clp_link_tolerance", 0.0)):
+                        dis(f"linkdec: member coordinate {float(x)} is merged into {float(v)} beyond the tolerance")
+                        return
+                    n_dis = sum(a != b_ for a, b_ in zip(con_own[k], con_v)) + sum(a != b_ for a, b_ in zip(rel_own[k], rel_v))
+                    if n_dis:
+                        ck.count("linkdec:members-merged-with-a-different-decision")
+                        ck.count("linkdec:item-decisions-differing-between-member-and-aligned", n_dis)
+                r = res.data[ds["label"]]
+                labels = [str(q) for q in r.clp.coords["clp_label"].values]
+                c = c03.arr(r.clp, "global", "clp_label")[j]
+                removed = [l for l in full if l not in red]
+                rel_targets = {rr["target"]: rr for rr, a in zip(rels, rel_v) if a and rr["target"] in full and rr["source"] in full}
+                for l in removed:
+                    if l not in labels:
+                        continue
+                    got = float(c[labels.index(l)])
+                    if l in rel_targets:
+                        rr = rel_targets[l]
+                        if rr["source"] in labels and got != P[rr["parameter"]] * float(c[labels.index(rr["source"])]):
+                            dis(f"linkdec: {ds['label']!r} own coordinate {float(x)} (aligned {float(v)}): the model relates "
+                                f"{l!r} to {rr['source']!r} at the aligned coordinate, the real clps are not in that ratio")
+                            return
+                    elif got != 0.0:
+                        dis(f"linkdec: {ds['label']!r} own coordinate {float(x)} (aligned {float(v)}): the model removes {l!r} "
+                            f"by a constraint applying at the aligned coordinate, the real clp is {got}")
+                        return
+        if table is not None and "unreadable" not in table:
+            if table["axis"] != m_axis or table["full"] != m_full or table["reduced"] != m_red:
+                ck.diagnostic("internal tables of MatrixProviderLinked differ from the model's linkDecisions",
+                              {"group": g, "real": table, "model": {"axis": m_axis, "full": m_full, "reduced": m_red}})
+                ck.count("linkdec:internal-table-differs")
+            else:
+                ck.count("linkdec:internal-table-agrees")
 
 
 def pen_close(u, v):
@@ -582,14 +714,72 @@ def rand_weight_case(rng):
 DATASET_LABEL_POOLS = [None, None, ["d1", "d10", "d", "d100"], ["a", "ab", "b", "abc"]]
 
 
+OFFSETS = [0.25, -0.25, 0.125, -0.125, 0.375, -0.375, 0.5]
+
+
+def jitter_axes(rng, spec):
+    """link tolerance > 0: move the global axes of datasets of linked groups off the grid (spacing 1, offsets of at most
+    1/2 in absolute value, all dyadic) so that points of later datasets are merged into points of earlier ones; every axis
+    stays strictly increasing.  Data and matrices are addressed by position, so only the coordinates change."""
+    first = set()
+    for ds in spec["datasets"]:
+        g = ds["group"]
+        if not gen_scheme.resolve_linked(spec, g):
+            continue
+        if g not in first:
+            first.add(g)
+            if rng.random() < 0.75:
+                continue                      # the first dataset of the group mostly keeps its coordinates
+        if rng.random() < 0.6:
+            off = rng.choice(OFFSETS)
+            ds["global_axis"] = [x + off for x in ds["global_axis"]]
+        else:
+            ax = [x + rng.choice([0.0, 0.25, -0.25, 0.125, -0.125, 0.375]) for x in ds["global_axis"]]
+            if all(a < b for a, b in zip(ax, ax[1:])):
+                ds["global_axis"] = ax
+
+
+def merged_pairs(spec):
+    """(own coordinate, aligned coordinate) of the member points of linked groups that are merged into another coordinate"""
+    out = []
+    for g in orc.group_order(spec):
+        if not gen_scheme.resolve_linked(spec, g):
+            continue
+        members = [ds for ds in spec["datasets"] if ds["group"] == g]
+        aligned = c02._align([ds["global_axis"] for ds in members], spec.get("clp_link_tolerance", 0.0), spec.get("clp_link_method", "nearest"))
+        if aligned is None:
+            continue
+        for ds, al in zip(members, aligned):
+            out += [(x, v) for x, v in zip(ds["global_axis"], al) if x != v]
+    return out
+
+
+def separating_interval(rng, x, v):
+    """an interval one of whose bounds lies between the member coordinate x and its aligned coordinate v (or on one of
+    them): exactly one of the two is inside"""
+    lo_, hi_ = min(x, v), max(x, v)
+    mid = (x + v) / 2
+    return rng.choice([
+        [mid, INF], [-INF, mid], [mid, hi_ + 2.0], [lo_ - 2.0, mid], [hi_ + 3.0, mid],      # bound strictly between
+        [x, x], [v, v],                                                                      # degenerate on one of them
+        [hi_, INF], [-INF, lo_], [hi_, hi_ + 1.5], [lo_, lo_ - 1.5],                         # bound on the outer one
+    ])
+
+
 def e2e_spec(rng):
     """a C02-space scheme without items + interval items built from the bound candidates of its axes"""
-    force = {"tol": 0.0, "link_clp": rng.choice([True, True, False, False, None])}
+    tol = rng.choice([0.0, 0.0, 0.25, 0.5, 0.5, 1.0])
+    force = {"tol": tol, "link_clp": rng.choice([True, True, False, False, None])}
+    if tol > 0 and rng.random() < 0.6:
+        # the tolerance only matters for linked groups of several datasets
+        force.update({"link_clp": True, "n_datasets": rng.choice([2, 2, 3, 3, 4])})
     pool = rng.choice(DATASET_LABEL_POOLS)
     spec = gen_scheme.rand_spec(rng, allow_full=rng.random() < 0.15, allow_items=False, force=force, dataset_labels=pool)
     if c03.group_label_collision(spec):
         # coinciding concatenations of dataset labels in a linked group are C03's recorded finding D9b, not C08's business
         spec = gen_scheme.rand_spec(rng, allow_full=False, allow_items=False, force=force)
+    if tol > 0 and rng.random() < 0.8:
+        jitter_axes(rng, spec)
     P = spec["parameters"]
 
     def new_param(v):
@@ -616,7 +806,20 @@ def e2e_spec(rng):
         rel["interval"] = [rng.choice([-INF, gpts[0]]), gpts[k - 1]]
         who = rel["target"] if rng.random() < 0.7 else rel["source"]
         spec["constraints"].append({"type": "zero", "target": who, "interval": [gpts[k], rng.choice([INF, gpts[-1]])]})
-    for _ in range(rng.choice([0, 1, 1, 2])):
+    # further relations (lists of relations without chains: pairwise different targets, no source is a target)
+    while spec["relations"] and len(spec["relations"]) < 3 and rng.random() < 0.4:
+        targets = {r["target"] for r in spec["relations"]}
+        sources = {r["source"] for r in spec["relations"]}
+        blocked = {c["target"] for c in spec["constraints"]}
+        cands = [(s_, t_) for s_ in labels for t_ in labels
+                 if s_ != t_ and t_ not in targets | sources | blocked and s_ not in targets | blocked]
+        if not cands:
+            break
+        s_, t_ = rng.choice(cands)
+        spec["relations"].append({"source": s_, "target": t_, "parameter": new_param(rng.choice([2.0, 0.5, 3.0, -1.0])),
+                                  "interval": rand_ivs(rng, gc)})
+    free = [l for l in labels if l not in {r["target"] for r in spec["relations"]}]
+    for _ in range(rng.choice([0, 1, 1, 2, 3])):
         if len(free) < 2:
             break
         kind = rng.choice(["zero", "zero", "only"])
@@ -628,6 +831,24 @@ def e2e_spec(rng):
         spec["penalties"].append({"source": s, "source_intervals": [rand_iv(rng, gc) for _ in range(rng.randint(1, 2))],
                                   "target": t, "target_intervals": [rand_iv(rng, gc) for _ in range(rng.randint(1, 2))],
                                   "parameter": new_param(rng.choice([1.0, 2.0, 0.5])), "weight": rng.choice([1.0, 2.0, 0.5, 8.0])})
+    pairs = merged_pairs(spec) if tol > 0 else []
+    if pairs:
+        # aim interval items at the gap between a merged member point and its aligned point: the member's own coordinate
+        # and the aligned coordinate of the shared clp then disagree about membership
+        if not spec["constraints"] and not spec["relations"] and len(free) >= 2:
+            spec["constraints"].append({"type": rng.choice(["zero", "zero", "only"]), "target": rng.choice(free), "interval": None})
+        # (items of a relation / constraint pair on one clp keep their disjoint intervals)
+        tied = {l for r in spec["relations"] for l in (r["source"], r["target"])} & {c["target"] for c in spec["constraints"]}
+        for it in spec["constraints"] + spec["relations"]:
+            if rng.random() < 0.6 and not ({it["target"], it.get("source", it["target"])} & tied):
+                x, v = rng.choice(pairs)
+                iv = separating_interval(rng, x, v)
+                it["interval"] = [J(iv[0]), J(iv[1])] if rng.random() < 0.7 else [[J(iv[0]), J(iv[1])], rand_iv(rng, gc)]
+        for p in spec["penalties"]:
+            if rng.random() < 0.4:
+                x, v = rng.choice(pairs)
+                iv = separating_interval(rng, x, v)
+                p[rng.choice(["source_intervals", "target_intervals"])][0] = [J(iv[0]), J(iv[1])]
     dl = [d["label"] for d in spec["datasets"]]
     for _ in range(rng.choice([0, 1, 1, 2, 3])):
         who = rng.sample(dl, rng.randint(1, len(dl)))
@@ -764,6 +985,18 @@ def run(ck):
     unit_streams(ck, batch)
     ck.sample(rand_weight_case(ck.rng))
     e2e_stream(ck, batch, ck.n(140, 2500))
+    c = ck.counters
+    ck.extra["link_member_vs_aligned"] = {
+        "member points of linked groups": c.get("link:member-points", 0),
+        "merged into another coordinate (tolerance > 0)": c.get("link:member-points-merged-into-another-coordinate", 0),
+        "merged member x interval-carrying constraint/relation": c.get("link:merged-member-x-interval-item", 0),
+        "of these: own and aligned coordinate disagree about membership":
+            sum(v for k, v in c.items() if k.startswith("link:merged-member-disagrees-with-aligned:")),
+        "member inside / aligned outside": sum(v for k, v in c.items() if k.startswith("link:merged-member-disagrees") and k.endswith("member-inside-aligned-outside")),
+        "member outside / aligned inside": sum(v for k, v in c.items() if k.startswith("link:merged-member-disagrees") and k.endswith("member-outside-aligned-inside")),
+        "model (linkDecisions): merged members / with a differing decision": [c.get("linkdec:members-merged", 0), c.get("linkdec:members-merged-with-a-different-decision", 0)],
+        "note": "60 % of the constraint / relation intervals of schemes with merged points are aimed at the gap on purpose",
+    }
     ck.extra["tolerances"] = {"clp relative (model)": RTOL, "penalty relative (model) / clp+penalty (numpy reference)": PEN_RTOL, "slices/truth values/weights/number_of_clps/warnings": "exact"}
 
 
